@@ -800,6 +800,9 @@ def path_forms(f: FuncInfo, g: CFG, e: ast.expr, at: Node, max_paths: int = 256)
             for t in tgts:
                 if isinstance(t, ast.Name):
                     env2[t.id] = val
+                elif isinstance(t, (ast.Tuple, ast.List)) and isinstance(val, (ast.Tuple, ast.List)) and len(t.elts) == len(val.elts) and all(isinstance(x, ast.Name) for x in t.elts):
+                    for x, v_ in zip(t.elts, val.elts):
+                        env2[x.id] = v_
                 else:
                     for x in ast.walk(t):
                         if isinstance(x, ast.Name) and isinstance(x.ctx, ast.Store):
@@ -923,6 +926,8 @@ def path_summaries(f: FuncInfo, g: CFG | None = None, max_paths: int = 512) -> l
             for t in tgts:
                 if isinstance(t, (ast.Tuple, ast.List)) and isinstance(a.value, (ast.Tuple, ast.List)) and len(t.elts) == len(a.value.elts) and not isinstance(a, ast.AugAssign):
                     pairs.extend((te, subst(ve, env, ver)) for te, ve in zip(t.elts, a.value.elts))  # right-hand sides are evaluated before any binding
+                elif isinstance(t, (ast.Tuple, ast.List)) and isinstance(val, (ast.Tuple, ast.List)) and len(t.elts) == len(val.elts) and not isinstance(a, ast.AugAssign):
+                    pairs.extend(zip(t.elts, val.elts))  # unpacking of a local that holds a tuple display
                 else:
                     pairs.append((t, val))
             for t, val in pairs:
